@@ -98,7 +98,10 @@ def strv(s):
 
 def str_axioms():
     from .ops import vt_axiom
-    ax = [str_id(NONE) == 0, vt_axiom()]
+    _n = z3.Int("ax_n")
+    ax = [str_id(NONE) == 0, vt_axiom(),
+          # int2v is injective (retraction) and never yields None
+          z3.ForAll([_n], z3.And(v2int(int2v(_n)) == _n, int2v(_n) != NONE), patterns=[int2v(_n)])]
     for s, (c, i) in _str_consts.items():
         ax.append(str_id(c) == i)
     return ax
@@ -126,6 +129,16 @@ class Opq:
 class PyNone:
     def __repr__(self):
         return "None"
+
+
+class PyInf:
+    """float('inf'): larger than every integer."""
+
+    def __repr__(self):
+        return "inf"
+
+
+PINF = PyInf()
 
 
 PNONE = PyNone()
@@ -389,10 +402,12 @@ class ListV:
     def __init__(self, eng, ref, heap):
         cell = heap[ref.base]
         self.n = cell["n"]
-        self._items = cell["items"]
+        self._cell = cell
 
-    def at(self, j):
-        return z3.Select(self._items, j)
+    def at(self, j, part=None):
+        if part is not None:
+            return z3.Select(self._cell[f"items{part}"], j)
+        return z3.Select(self._cell["items"], j)
 
 
 class ObjV:
@@ -450,6 +465,10 @@ class OptT(T):
 
     def __init__(self, elem="int"):
         self.elem = elem
+
+
+class HeapT(T):
+    """heapq list of (number, message) pairs, abstracted to a finite map number -> message."""
 
 
 class TupleT(T):
@@ -521,6 +540,9 @@ class Engine:
             if v.kind == "iter":
                 from . import generators
                 return generators.resolve_iter(self, v, heap)
+            if v.kind == "msgheap":
+                from .monitor import HeapV
+                return HeapV(self, v, heap)
             return ObjV(self, v, heap)
         if isinstance(v, Opq):
             return v.t
@@ -753,6 +775,11 @@ class Engine:
         if isinstance(op, (ast.In, ast.NotIn)):
             r = self.contains(b, a, st)
             return z3.Not(r) if isinstance(op, ast.NotIn) else r
+        if a is PINF or b is PINF:
+            if a is PINF and b is PINF:
+                return z3.BoolVal(isinstance(op, (ast.LtE, ast.GtE)))
+            less = b is PINF      # finite < inf
+            return z3.BoolVal({ast.Lt: less, ast.LtE: less, ast.Gt: not less, ast.GtE: not less}[type(op)])
         x, y = self.to_int(a), self.to_int(b)
         return {ast.Lt: x < y, ast.LtE: x <= y, ast.Gt: x > y, ast.GtE: x >= y}[type(op)]
 
@@ -883,6 +910,10 @@ class Engine:
             props = cell.get("#props", {})
             if attr in props:
                 return props[attr](self, v, st, fr, k, node)
+            meths = cell.get("#methods", {})
+            if attr in meths:
+                from .monitor import BoundMethod
+                return k(BoundMethod(v, meths[attr]), st)
             raise Unsupported(f"attribute {attr} of object {cell.get('#cls')} is not declared")
         if isinstance(v, Opq):
             f = z3.Function("attr_" + attr, V, V)
@@ -1020,7 +1051,16 @@ class Engine:
             i = self.to_int(idx)
             ii = self.norm_index(i, cell["n"])
             self.oblige("safety", "list index in range", st, z3.And(0 <= ii, ii < cell["n"]), node)
-            return k(self.from_sort(z3.Select(cell["items"], ii)), st)
+            return k(self.list_elem(cell, ii), st)
+        if isinstance(base, Ref) and base.kind == "msgheap":
+            # h[0]: the pair with the least message number (heapq invariant)
+            c = _const_int(idx)
+            if c != 0:
+                raise Unsupported("only h[0] is supported on a heap")
+            cell = st.heap[base.base]
+            self.oblige("safety", "heap is not empty", st, cell["size"] > 0, node)
+            low = self.heap_lowest(cell)
+            return k((low, Opq(z3.Select(cell["msgs"], low))), st)
         if isinstance(base, Ref) and base.kind == "dict":
             cell = st.heap[base.base]
             key = self.to_v(idx)
@@ -1064,6 +1104,22 @@ class Engine:
         dt = z3.Function("dtype_of", V, V)
         st = st.assume(dt(z3.Const("arr:" + rbase, V)) == dt(z3.Const("arr:" + base.base, V)))
         return k(res, st)
+
+    def list_elem(self, cell, i):
+        if "items" in cell:
+            return self.from_sort(z3.Select(cell["items"], i))
+        k = 0
+        out = []
+        while f"items{k}" in cell:
+            out.append(self.from_sort(z3.Select(cell[f"items{k}"], i)))
+            k += 1
+        return tuple(out)
+
+    def heap_lowest(self, cell):
+        """least number in the heap: an uninterpreted function of the membership array, characterised by facts
+        the monitor layer assumes (member, and nothing smaller is a member)."""
+        f = z3.Function("heap_lowest", cell["inbox"].sort(), z3.IntSort())
+        return f(cell["inbox"])
 
     def dict_value(self, cell, key):
         vs = cell.get("#vsort", "V")
@@ -1149,10 +1205,21 @@ class Engine:
                         return conds(0, s2)
                     return self.assign(g.target, items[i], s1, fr, bound, e)
                 return go(0, s0)
-            # symbolic iterable: arbitrary element
-            if isinstance(it, Arr) and it.field is not None and not g.ifs and kind in ("list", "gen"):
-                arr = self.heap_field(s0.heap, it.base, it.field)
-                raise Unsupported("comprehension over an array column")
+            # symbolic sequence (heap list / array column / zip of them): a lazy element-wise vector
+            if kind in ("list", "gen") and not g.ifs and (
+                    (isinstance(it, Ref) and it.kind == "list") or isinstance(it, (Arr, Vec, PyZip, PyEnum))):
+                from .loops import iteration_space
+                n, elem = iteration_space(self, it, s0, e)
+                q = self.fresh("ci")
+                got = []
+
+                def bound(s2):
+                    return self.ev(e.elt, s2, fr, lambda v, s3: got.append(v))
+                self.assign(g.target, elem(q, s0), s0, fr, bound, e)
+                if len(got) != 1 or not _is_z3(got[0]):
+                    raise Unsupported("comprehension element that branches or is not a scalar")
+                term = got[0]
+                return k(Vec(n, lambda i: z3.substitute(term, (q, i if _is_z3(i) else z3.IntVal(i)))), s0)
             if isinstance(it, Opq) or (isinstance(it, Ref) and it.kind in ("iter",)):
                 self.assumptions.add(f"comprehension at line {e.lineno} of {self.cur.key}: element expressions have no "
                                      "side effects; the result is an opaque value")
@@ -1262,6 +1329,14 @@ class Engine:
                 for key, val in v.items():
                     st = st.assume(gi(d, self.to_v(key)) == self.to_v(val))
                 v = Opq(d)
+            want_l = (self.cur.local_sorts if self.cur else {}).get(tgt.id)
+            if isinstance(want_l, ListT) and isinstance(v, list) and not v:
+                # ``x = []`` for a local declared as a symbolic list: allocate an empty heap list
+                from .contract import make_symbolic
+                base = self.new_base(tgt.id)
+                ref, st = make_symbolic(self, base, want_l, st, set())
+                st = st.with_cell(base, "n", z3.IntVal(0))
+                v = ref
             if isinstance(v, Closure) and (self.cur.local_sorts if self.cur else {}).get(tgt.id) == "V":
                 c = self.fresh("function", "V")
                 st = st.assume(truthy(c))       # a function object is truthy
@@ -1301,6 +1376,8 @@ class Engine:
     def coerce_local(self, name, v):
         ls = self.cur.local_sorts if self.cur else {}
         want = ls.get(name)
+        if isinstance(want, ListT):
+            return v
         if want == "V" and not isinstance(v, Opq):
             return Opq(self.to_v(v))
         return v
@@ -1445,6 +1522,7 @@ class Engine:
     def infeasible(self, st):
         s = z3.Solver()
         s.set("timeout", 3000)
+        s.set("rlimit", 20000000)   # deterministic resource bound: z3 does not always honour the wall-clock timeout
         for h in st.pc:
             s.add(h)
         for a in str_axioms():
